@@ -67,8 +67,11 @@ def gen_cfg(rng, combo=None, finite=None, n_max=12, allow_not_random=True, u=Non
     test, estim, bet = combo if combo else rng.choice(COMBOS)
     if u is None:
         u = rng.choice(U_CHOICES)
-    if estim == "optimal_comparison" and u <= 1:
+    if estim == "optimal_comparison" and u <= 1 and rng.random() < 0.8:
+        # mostly the comparison-audit regime u > 1; u <= 1 (CVRs that do not satisfy the assertion) stays in at 20 %
         u = rng.choice((1.0625, 1.5, 2.0, 1 + 2.0 ** -20, 1.25, 1.015625, 1 + 2.0 ** -10))
+    elif estim == "optimal_comparison" and rng.random() < 0.1:
+        u = rng.choice((0.9375, 0.75, 1.0))
     if t is None:
         t = 0.5 if rng.random() < 0.7 else rng.choice((0.25, 0.375, 0.625, 0.75))
         if t >= u:
@@ -228,7 +231,5 @@ def in_domain(cfg, x):
     if cfg["test"] == "wald_sprt" and math.isfinite(N) and not cfg.get("random_order", True):
         return False
     if cfg["test"] in ("kaplan_markov", "kaplan_wald") and math.isfinite(N):
-        return False
-    if cfg.get("estim") == "optimal_comparison" and cfg["test"] == "alpha_mart" and u <= 1:
         return False
     return True
